@@ -10,7 +10,7 @@ from collections import Counter
 
 from mc.engine.core import Collector, Result, Violation, pmap
 
-TAGS = ["c", "c[0]", "c[2]", "d", "d[1]", "q\u00e9[1]", "q\u00e9"]
+TAGS = ["c", "c[0]", "c[2]", "c[10]", "d", "d[1]", "q\u00e9[1]", "q\u00e9"]
 VALUES = [0, 1, True, False, [0, 1], [1], [], 2, 0.5, [0, 2], [True, 0]]
 BOUNDS = {
     "quick": dict(shot_len=3, res_shots=2),
